@@ -5,7 +5,7 @@ import editor
 from editor import InT, InX, same, conj
 from stdm import dr
 
-TITLE = 'editor: sign/write chain — snapshot and timestamp describe exactly the buffers that are written, under the file names the client asks for; SignedRole::new signs with role keys only and enforces the threshold; from_signed derives length and digest from the buffer it keeps; delegate_role / build_targets / TargetsEditor::sign keep exactly the roles and keys put in; change_delegated_targets / sign_targets_editor open and put back the right role'
+TITLE = 'editor: sign/write chain — snapshot and timestamp describe exactly the buffers that are written, under the file names the client asks for; SignedRole::new signs with role keys only and enforces the threshold; from_signed derives length and digest from the buffer it keeps; delegate_role / build_targets / TargetsEditor::sign keep exactly the roles and keys put in; change_delegated_targets / sign_targets_editor open and put back the right role; walk_targets hands every regular file of the input directory (links followed) to the publishing operator'
 
 def fld(adt, struct, name): return adt.fields[(None, F(struct, name))]
 
@@ -141,6 +141,7 @@ def check(R, tier):
     U.key_lookup(R, I, tier)
     U.delegation_edits(R, I, tier)
     U.editor_switch(R, I, tier)
+    U.walk_publication(R, I, tier)
     native(R, tier)
 
 def native(R, tier):
